@@ -73,7 +73,15 @@ def search(ctx, broken, corr_broken):
     global LAST_SEARCH_CANDIDATES
     hits, n = pgncorr.oracle_search(ctx)
     LAST_SEARCH_CANDIDATES = n
-    return [{"key": k, "what": what, "replay": {"kind": "oracle", "function": sfx, "payload": str(x)}} for k, what, sfx, x in hits]
+    out = [{"key": k, "what": what, "replay": {"kind": "oracle", "function": sfx, "payload": str(x)}} for k, what, sfx, x in hits]
+    if (broken or corr_broken) and not out:
+        # "a returned message names that definition": a break in the dispatcher tables shows as the wrong (or no) definition for a payload
+        import importlib
+        c8 = importlib.import_module("props.C08")
+        for v in c8.search(ctx, broken, corr_broken):
+            out.append({"key": v["key"].replace("C08/", "C01/", 1), "what": v["what"], "replay": v["replay"]})
+        LAST_SEARCH_CANDIDATES = n + (getattr(c8, "LAST_SEARCH_CANDIDATES", 0) or 0)
+    return out
 
 
 def standing_search(ctx):
@@ -82,6 +90,9 @@ def standing_search(ctx):
 
 
 def replay(rp):
+    if rp.get("kind") in ("selection", "selection-live"):
+        import importlib
+        return importlib.import_module("props.C08").replay(rp)
     if rp.get("kind") != "oracle":
         return False, "not an input replay: " + str(rp.get("broken_theorems") or rp.get("broken_correspondence"))[:500]
     harness.load_repo()
